@@ -107,7 +107,7 @@ class Shape:
     """Base class; subclasses must be picklable through (cls, params)."""
     width = 64
     max_paths = 2000
-    solver_timeout_ms = 20000
+    solver_timeout_ms = 60000
     kind = 'UNIT'
     max_decisions = 4000
     nonterm_is_violation = False
